@@ -868,6 +868,19 @@ def _space_cases(ctx, deep):
     return cases
 
 
+def space_case_safe(c):
+    """space_case for the pool: an exception of harness code inside a job (the calls of the real code are caught one by one in
+    space_case and judged) comes back as data and becomes a broken obligation; it never ends pool.map"""
+    try:
+        return space_case(c)
+    except Exception as e:
+        import traceback
+        tb = traceback.extract_tb(e.__traceback__)
+        where = "%s:%d in %s" % (os.path.basename(tb[-1].filename), tb[-1].lineno, tb[-1].name) if tb else "?"
+        return dict(problems=[], notes=[], labels_api=None, string_api=None, pipeline=None, closed_form=None,
+                    harness_exc=dict(type=type(e).__name__, where=where, text=str(e)[:300]))
+
+
 def _space_pool_init():
     sys.stdout = open(os.devnull, "w")
 
@@ -884,7 +897,7 @@ def option_space(ctx, deep):
     nproc = min(16, os.cpu_count() or 1, max(1, len(cases)))
     order = sorted(range(len(cases)), key=lambda i: -(cases[i]["k"] * (4 if cases[i]["log_opt"] and cases[i]["k"] == 2 else 1)))
     with mp.get_context("fork").Pool(nproc, initializer=_space_pool_init) as pool:
-        results = pool.map(space_case, [cases[i] for i in order], chunksize=1)
+        results = pool.map(space_case_safe, [cases[i] for i in order], chunksize=1)
     res = [None] * len(cases)
     for i, r in zip(order, results):
         res[i] = r
@@ -904,6 +917,10 @@ def option_space(ctx, deep):
         stat["string_compared"] += int(r["string_api"] is not None); stat["pipeline_rows"] += int(r["pipeline"] is not None)
         stat["string_reparameterised"] += len(r["notes"])
         rp = {q: c[q] for q in ("kind", "labels", "fcn", "k", "p_true", "signs", "log_opt", "pmin", "pmax", "np_seed", "x", "y", "yerr")}
+        if r.get("harness_exc"):
+            hx = r["harness_exc"]
+            stat["harness_exceptions"] = stat.get("harness_exceptions", 0) + 1
+            ctx.disagree("space:harness", "option-space case %s log_opt=%s: harness code raised %s at %s: %s" % (c["fcn"], c["log_opt"], hx["type"], hx["where"], hx["text"]))
         for pkey, what in r["problems"]:
             stat["problems"] += 1
             ctx.fail("%s:k=%d:log_opt=%d" % (pkey, c["k"], int(c["log_opt"])), what, rp)
@@ -1029,6 +1046,202 @@ def scripted_single(ctx, n):
     return len(ops), bad
 
 
+
+# =====================================================================================================================
+# Call-sequence histories of the formula-string entry point in ONE process (every ordered pair of option settings per formula)
+# =====================================================================================================================
+
+import strapi_hist as sh
+
+HIST_KINDS = [dict(fn="fit", rf=False), dict(fn="fit", rf=True), dict(fn="aif", rf=False), dict(fn="aif", rf=True)]
+# (formula, labels of the formula, the function fitted under replace_floats=True (every non-exponent constant a free parameter), its labels)
+HIST_POOL = [("a0 + 0.5*x", ["+", "a0", "*", "0.5", "x"], "a0 + a1*x", ["+", "a0", "*", "a1", "x"]),
+             ("a0*x + 2.5", ["+", "*", "a0", "x", "2.5"], "a0*x + a1", ["+", "*", "a0", "x", "a1"]),
+             ("a0 + a1*x", ["+", "a0", "*", "a1", "x"], "a0 + a1*x", ["+", "a0", "*", "a1", "x"]),
+             ("a0*x**2 + 0.5", ["+", "*", "a0", "pow", "x", "2", "0.5"], "a0*x**2 + a1", ["+", "*", "a0", "pow", "x", "2", "a1"]),
+             ("1.5*x + a0/x", ["+", "*", "1.5", "x", "/", "a0", "x"], "a0*x + a1/x", ["+", "*", "a0", "x", "/", "a1", "x"])]
+
+
+def _hist_text(c):
+    if c["fn"] == "single":
+        return "single_function(%r)" % (c["labels"],)
+    return "%s(%r, replace_floats=%s)" % ("fit_from_string" if c["fn"] == "fit" else "string_to_aifeyn", c["formula"], c["rf"])
+
+
+def _hist_plan(ctx, deep):
+    rng = ctx.rng
+    plans = []
+    for h in range(int(os.environ.get("C20_HIST", 8 if deep else 3))):
+        for attempt in range(30):
+            dseed = rng.randrange(1 << 30)
+            rs = np.random.RandomState(dseed)
+            npts = rng.choice([12, 16, 24])
+            x = np.linspace(0.5, 3.0, npts)
+            s = np.full(npts, rng.choice([0.1, 0.2, 0.4]))
+            y = rng.choice([1.3, -0.7, 2.1]) * x + rng.choice([0.6, 2.0, -1.1]) + rs.normal(0, 1.0, npts) * s
+            cfs = {}
+            for f, lf, ft, lt in HIST_POOL:
+                for g_ in (f, ft):
+                    m = oracle_mdl.linear_model(g_)
+                    cfs[g_] = oracle_mdl.closed_form(x, y, s, m) if m is not None else None
+            if all(c is not None and c["margin"] >= 0.05 and bool(np.all(c["kept"])) for c in cfs.values()):
+                break
+        seeds = {(fi, k): rng.randrange(1 << 31) for fi in range(len(HIST_POOL)) for k in range(len(HIST_KINDS))}
+        seqs = [sh.euler_pairs(len(HIST_KINDS), rng) for _ in HIST_POOL]
+        assert all(sh.covers_all_pairs(q, len(HIST_KINDS)) for q in seqs)
+        order = sh.interleave(seqs, rng)
+
+        def call(fi, k):
+            return dict(HIST_KINDS[k], formula=HIST_POOL[fi][0], basis=BASIS, np_seed=seeds[(fi, k)])
+        calls = [call(fi, k) for fi, k in order]
+        fresh = [call(fi, k) for fi in range(len(HIST_POOL)) for k in range(len(HIST_KINDS))]
+        # the labels entry point on the same function, same numpy seed as the string call it is compared with
+        for fi, (f, lf, ft, lt) in enumerate(HIST_POOL):
+            fresh.append(dict(fn="single", labels=lf, basis=BASIS, np_seed=seeds[(fi, 0)], of=[f, False]))
+            fresh.append(dict(fn="single", labels=lt, basis=BASIS, np_seed=seeds[(fi, 1)], of=[f, True]))
+        plans.append(dict(name="h%d" % h, calls=calls, fresh=fresh, data=dict(x=[float(v) for v in x], y=[float(v) for v in y], yerr=[float(v) for v in s]),
+                          cf={g_: (None if c is None else float(c["nll"])) for g_, c in cfs.items()}))
+    return plans
+
+
+def _hist_judge_call(c, r, want, single, cf_nll):
+    """one call of a history against: the same call as the first call of a fresh process, the labels entry point on the
+    same function, the closed form -> [(key, text)]"""
+    out = []
+    tag = ":rf=%d" % int(c["rf"])
+    if not r.get("ok"):
+        out.append(("hist:%s-raises:%s%s" % (c["fn"], r.get("exc"), tag), "raises %s at %s: %s" % (r.get("exc"), r.get("where"), r.get("text"))))
+        return out
+    if want is not None and want.get("ok"):
+        if r.get("labels") != want.get("labels"):
+            out.append(("hist:%s-labels-vs-fresh-process%s" % (c["fn"], tag), "labels %r in the history, %r as the first call of a fresh process" % (r.get("labels"), want.get("labels"))))
+        if c["fn"] == "aif":
+            if r.get("comp") != want.get("comp") or not _close(r.get("aifeyn"), want.get("aifeyn"), 1e-9, 1e-12):
+                out.append(("hist:aif-value-vs-fresh-process%s" % tag, "(tree code length, complexity) = (%r, %r) in the history, (%r, %r) as the first call of a fresh process"
+                            % (r.get("aifeyn"), r.get("comp"), want.get("aifeyn"), want.get("comp"))))
+        elif abs(r["nll"] - want["nll"]) > TOL or abs(r["DL"] - want["DL"]) > 2 * TOL:
+            out.append(("hist:string-entry-vs-fresh-process%s" % tag, "nll %.8g DL %.8g in the history, nll %.8g DL %.8g as the first call of a fresh process" % (r["nll"], r["DL"], want["nll"], want["DL"])))
+    if c["fn"] == "fit":
+        if single is not None and single.get("ok") and (abs(r["nll"] - single["nll"]) > TOL or abs(r["DL"] - single["DL"]) > 2 * TOL):
+            out.append(("hist:string-vs-labels-entry%s" % tag, "string entry point -> labels %r nll %.8g DL %.8g; labels entry point single_function(%r) nll %.8g DL %.8g"
+                        % (r["labels"], r["nll"], r["DL"], single["labels"], single["nll"], single["DL"])))
+        if cf_nll is not None and abs(r["nll"] - cf_nll) > TOL:
+            out.append(("hist:string-vs-closed-form%s" % tag, "string entry point -> labels %r nll %.8g; closed form nll %.8g" % (r["labels"], r["nll"], cf_nll)))
+    return out
+
+
+def _hist_eval(pl, hres, fres):
+    """-> [dict(index, call, problems, prior)] for the calls of the history that fail some comparison"""
+    fresh = {}
+    single = {}
+    for c, r in zip(pl["fresh"], fres):
+        if c["fn"] == "single":
+            single[(c["of"][0], bool(c["of"][1]))] = r[0]
+        else:
+            fresh[json.dumps(c, sort_keys=True)] = r[0]
+    pool = {f: (lf, ft, lt) for f, lf, ft, lt in HIST_POOL}
+    bad = []
+    for i, (c, r) in enumerate(zip(pl["calls"], hres)):
+        lf, ft, lt = pool[c["formula"]]
+        cf = pl["cf"].get(ft if c["rf"] else c["formula"])
+        pr = _hist_judge_call(c, r, fresh.get(json.dumps(c, sort_keys=True)), single.get((c["formula"], bool(c["rf"]))), cf)
+        if pr:
+            bad.append(dict(index=i, call=c, problems=pr, prior=[q for q in pl["calls"][:i] if q["formula"] == c["formula"]], got=r))
+    return bad
+
+
+def _hist_run(ctx, plans, tag):
+    tmp = os.path.join(ctx.tmp, "c20hist")
+    specs = []
+    for pl in plans:
+        specs.append((tag + pl["name"], dict(mode="fit", fork=False, tasks=[pl["calls"]], data=dict(pl["data"], dir=os.path.join(tmp, tag + pl["name"] + "_d")))))
+        specs.append((tag + pl["name"] + "_fresh", dict(mode="fit", fork=True, tasks=[[c] for c in pl["fresh"]], timeout=300,
+                                                         data=dict(pl["data"], dir=os.path.join(tmp, tag + pl["name"] + "_fd")))))
+    return sh.run_many(ctx.env(), tmp, specs, 1800, maxpar=8)
+
+
+def string_histories(ctx, deep):
+    """fit_from_string / string_to_aifeyn called many times in ONE process on tiny linear-Gaussian data: every ordered pair
+    of (function, replace_floats) settings on every formula; each call against the same call in a fresh process, against the
+    labels entry point on the same function and against the closed form"""
+    t0 = time.time()
+    stat = dict(histories=0, calls=0, fits=0, settings=len(HIST_KINDS), ordered_pairs_per_formula=len(HIST_KINDS) ** 2, formulas=len(HIST_POOL),
+                problems=0, worker_errors=[])
+    ctx.extra["string_histories"] = stat
+    plans = _hist_plan(ctx, deep)
+    out = _hist_run(ctx, plans, "")
+    for pl in plans:
+        (hres, e1), (fres, e2) = out[pl["name"]], out[pl["name"] + "_fresh"]
+        if e1 or e2 or hres is None or fres is None:
+            stat["worker_errors"].append(str(e1 or e2)[:300])
+            ctx.disagree("hist:harness", "history %s: %s" % (pl["name"], str(e1 or e2)[:400]))
+            continue
+        hres = hres[0]
+        stat["histories"] += 1
+        stat["calls"] += len(hres)
+        stat["fits"] += sum(1 for c in pl["calls"] if c["fn"] == "fit")
+        # the references themselves: first calls of fresh processes are cases of the property too (string vs labels entry vs closed form)
+        refs_bad = []
+        for c, r in zip(pl["fresh"], fres):
+            if c["fn"] == "single" and not r[0].get("ok"):
+                refs_bad.append("%s raises %s at %s: %s" % (_hist_text(c), r[0].get("exc"), r[0].get("where"), r[0].get("text")))
+        for msg in refs_bad:
+            ctx.fail("hist:single_function-raises", msg, dict(kind="history", data=pl["data"], calls=[]))
+        bad = _hist_eval(pl, hres, fres)
+        for f, lf, ft, lt in HIST_POOL:
+            ctx.case(("history", pl["name"], ctx.seed, f), nontrivial=True, n=len(HIST_KINDS) ** 2 + 1)
+        seen = set()
+        for b in bad:
+            c = b["call"]
+            for key, text in b["problems"]:
+                if (key, c["formula"]) in seen:
+                    continue
+                seen.add((key, c["formula"]))
+                stat["problems"] += 1
+                # shortest reproducing sequence offered for replay: the call before it on this formula + the call, else the prefix
+                calls = (b["prior"][-1:] + [c]) if b["prior"] else [c]
+                ctx.fail(key, "%s: %s [call %d of a history in one process, %d earlier call(s) on this formula, the last one %s]" % (
+                    _hist_text(c), text, b["index"], len(b["prior"]), _hist_text(b["prior"][-1]) if b["prior"] else "none"),
+                    dict(kind="history", data=pl["data"], calls=calls, prefix=pl["calls"][:b["index"] + 1], cf=pl["cf"]))
+        if pl is plans[0]:
+            ctx.sample(dict(kind="string-history", formulas=[q[0] for q in HIST_POOL], first_calls=[_hist_text(c) for c in pl["calls"][:5]],
+                            first_results=[{k: r.get(k) for k in ("labels", "nll", "DL", "aifeyn", "exc") if k in r} for r in hres[:5]]), cap=16)
+    stat["wall_s"] = round(time.time() - t0, 1)
+    return stat
+
+
+def _replay_history(ctx, data):
+    pool = {f: (lf, ft, lt) for f, lf, ft, lt in HIST_POOL}
+    ok = True
+    for name, calls in (("reproducing pair", data.get("calls") or []), ("prefix of the history", data.get("prefix") or [])):
+        if not calls:
+            continue
+        fresh = []
+        for c in calls:
+            if c not in fresh:
+                fresh.append(c)
+        nf = len(fresh)
+        for c in list(fresh):
+            lf, ft, lt = pool.get(c["formula"], (None, None, None))
+            if c["fn"] == "fit" and lf is not None:
+                fresh.append(dict(fn="single", labels=lt if c["rf"] else lf, basis=BASIS, np_seed=c["np_seed"], of=[c["formula"], bool(c["rf"])]))
+        pl = dict(name="replay", calls=calls, fresh=fresh, data=data["data"], cf=data.get("cf") or {})
+        out = _hist_run(ctx, [pl], "rp%d_" % len(calls))
+        (hres, e1), (fres, e2) = out["rp%d_replay" % len(calls)], out["rp%d_replay_fresh" % len(calls)]
+        if e1 or e2:
+            print("replay: workers failed: %s" % (e1 or e2,)); return False
+        bad = {b["index"]: b for b in _hist_eval(pl, hres[0], fres)}
+        print("replay: %s - one process, in this order:" % name)
+        for i, (c, r) in enumerate(zip(calls, hres[0])):
+            print("replay:   %s -> %s" % (_hist_text(c), {k: r.get(k) for k in ("labels", "nll", "DL", "aifeyn", "comp", "exc", "where", "text") if k in r}))
+            for key, text in (bad.get(i) or {}).get("problems", []):
+                print("replay:      FAILS %s: %s" % (key, text))
+        for c, r in zip(fresh[nf:], fres[nf:]):
+            print("replay:   labels entry point %s -> %s" % (_hist_text(c), {k: r[0].get(k) for k in ("nll", "DL", "exc") if k in r[0]}))
+        if bad:
+            return False
+    return ok
+
 def run(ctx):
     deep = not ctx.quick
     drift = extract.drifted(ctx.proof.get("extract", {}), ["test_all_Fisher.py:convert_params", "match.py:main", "simplifier.py:convert_params"]) if ctx.proof else []
@@ -1057,6 +1270,12 @@ def run(ctx):
         option_space(ctx, deep)
     except Exception as e:
         ctx.disagree("space:harness", "could not run the option-space cases: %r" % (e,))
+    hist_ok = False
+    try:
+        hs = string_histories(ctx, deep)
+        hist_ok = hs["histories"] > 0 and not hs["worker_errors"]
+    except Exception as e:
+        ctx.disagree("hist:harness", "could not run the call-sequence histories of the string entry point: %r" % (e,))
     comp = 4
     g = libgen.generate(ctx, "core_maths", list(range(1, comp + 1)), P=1, copy="c20_lib")
     if not g["ok"]:
@@ -1152,8 +1371,9 @@ def run(ctx):
     ctx.extra["single_trace"] = tstat
     if tstat["traced"] == 0:
         ctx.disagree("corr:single-trace", "no call of single_function could be traced")
-    ctx.extra["corr_obligations"] = 6
-    ctx.extra["corr_discharged"] = (int(not any(f["key"].startswith("single") or f["key"].startswith("string") or f["key"].startswith("pipeline") or f["key"].startswith("space") for f in ctx.failures)
+    ctx.extra["corr_obligations"] = 7
+    ctx.extra["corr_discharged"] = (int(hist_ok and not any(f["key"].startswith("hist:") for f in ctx.failures) and not any(d["name"] == "hist:harness" for d in ctx.disagreements))
+                                    + int(not any(f["key"].startswith("single") or f["key"].startswith("string") or f["key"].startswith("pipeline") or f["key"].startswith("space") for f in ctx.failures)
                                         and not any(d["name"] == "space:harness" for d in ctx.disagreements))
                                     + int(scripted_ok)
                                     + int(not any(f["key"].startswith("fisher-vs-match") for f in ctx.failures) and not any(d["name"] == "fvm:harness" for d in ctx.disagreements))
@@ -1173,6 +1393,8 @@ def replay(ctx, data):
         for kind, msg in bad:
             print("replay: %s: %s" % (kind, msg))
         return not bad
+    if data.get("kind") == "history":
+        return _replay_history(ctx, data)
     if data.get("kind") == "space":
         c = dict(data)
         c["tmp"] = os.path.join(ctx.tmp, "space"); os.makedirs(c["tmp"], exist_ok=True)
